@@ -233,23 +233,42 @@ def rand_state(rng, n, r, cplx):
     return state_from_vectors(G, w)
 
 
-def cayley_int(rng, n, cplx, lim=2):
-    """integer matrix Q with mutually orthogonal columns of equal norm^2 = c (Q/sqrt(c) is a rational unitary): returns (Q as QM, c)"""
-    while True:
-        A = rng.integers(-lim, lim + 1, size=(n, n)).astype(object)
-        B = rng.integers(-lim, lim + 1, size=(n, n)).astype(object) if cplx else np.zeros((n, n), dtype=object)
-        S = QM(A - A.T, B + B.T).scale(Fraction(1, 2))  # skew-Hermitian
-        I = QM.eye(n)
-        try:
-            U = (I - S) @ (I + S).inverse()
-        except ZeroDivisionError:
-            continue
-        den = 1
-        for x in list(U.re.reshape(-1)) + list(U.im.reshape(-1)):
-            den = den * x.denominator // math.gcd(den, x.denominator)
-        if den > 400:
-            continue
-        return U.scale(den), den * den, U
+PYTH = [(3, 4, 5), (4, 3, 5), (5, 12, 13), (12, 5, 13), (8, 15, 17)]
+
+
+def rational_unitary(rng, n, cplx, nrot=None):
+    """exact rational unitary: product of Pythagorean Givens rotations (with phases in {1, i, -1, -i} when complex), a permutation and diagonal phases"""
+    U = QM.eye(n)
+    nrot = n if nrot is None else nrot
+    for _ in range(nrot):
+        i, j = sorted(rng.choice(n, size=2, replace=False).tolist())
+        a, b, c = PYTH[int(rng.integers(len(PYTH) - (1 if n > 3 else 0)))]
+        ph = [(1, 0), (0, 1), (-1, 0), (0, -1)][int(rng.integers(4))] if cplx else [(1, 0), (-1, 0)][int(rng.integers(2))]
+        R = QM.eye(n)
+        R.re[i, i] = Fraction(a, c)
+        R.re[j, j] = Fraction(a, c)
+        # [[c, -s conj(p)], [s p, c]]
+        R.re[i, j] = Fraction(-b * ph[0], c)
+        R.im[i, j] = Fraction(b * ph[1], c)
+        R.re[j, i] = Fraction(b * ph[0], c)
+        R.im[j, i] = Fraction(b * ph[1], c)
+        U = R @ U
+    perm = rng.permutation(n).tolist()
+    P = QM.zeros(n, n)
+    for i, pi in enumerate(perm):
+        ph = [(1, 0), (0, 1), (-1, 0), (0, -1)][int(rng.integers(4))] if cplx else [(1, 0), (-1, 0)][int(rng.integers(2))]
+        P.re[i, pi] = Fraction(ph[0])
+        P.im[i, pi] = Fraction(ph[1])
+    return P @ U
+
+
+def cayley_int(rng, n, cplx):
+    """integer matrix Q with mutually orthogonal columns of equal norm^2 = c (Q/sqrt(c) is a rational unitary): returns (Q as QM, c, U)"""
+    U = rational_unitary(rng, n, cplx)
+    den = 1
+    for x in list(U.re.reshape(-1)) + list(U.im.reshape(-1)):
+        den = den * x.denominator // math.gcd(den, x.denominator)
+    return U.scale(den), den * den, U
 
 
 def mix(states, probs):
@@ -520,3 +539,498 @@ def certify_matsumoto(drv, a: State, b: State, lam_min):
     except Exception as e:
         why.append("mats-dual:" + type(e).__name__)
     return lo, hi, why
+
+
+# ------------------------------------------------------------------------------------------------
+# calling toqito
+
+SLACK = 1e-7
+TAU_T = 1e-8
+TAU_F = 1e-8
+TAU_M = 1e-7
+
+
+def _call(fn, *a, **k):
+    """('ok', value) | ('raise', 'Type: msg'); stdout of scipy suppressed"""
+    try:
+        with contextlib.redirect_stdout(io.StringIO()), warnings.catch_warnings():
+            warnings.simplefilter("ignore")
+            return "ok", fn(*a, **k)
+    except Exception as e:  # noqa: BLE001
+        return "raise", f"{type(e).__name__}: {str(e)[:200]}"
+
+
+def state_from_key(k):
+    G = QM(np.array([Fraction(x) for x in k["G"][0]], dtype=object).reshape(k["shape"]), np.array([Fraction(x) for x in k["G"][1]], dtype=object).reshape(k["shape"]))
+    return State(G, [Fraction(x) for x in k["D"]])
+
+
+def _skey(s: State):
+    d = s.key()
+    d["shape"] = list(s.G.shape)
+    return d
+
+
+def _float_in(s: State, as_complex):
+    f = s.float()
+    return np.asarray(f, dtype=complex) if as_complex else f
+
+
+def rotate(s: State, Qm: QM, c):
+    """U rho U^H for the rational unitary U = Q / sqrt(c) (Q integer with orthogonal columns of norm^2 c)"""
+    return State(Qm @ s.G, [d / c for d in s.D])
+
+
+FUNCS = ["trace_distance", "trace_norm", "helstrom_holevo", "fidelity", "bures_distance", "bures_angle", "sub_fidelity", "matsumoto_fidelity", "hilbert_schmidt"]
+
+
+def _toqito():
+    from toqito.matrix_props import trace_norm
+    from toqito.state_metrics import (bures_angle, bures_distance, fidelity, helstrom_holevo, hilbert_schmidt,
+                                      matsumoto_fidelity, sub_fidelity, trace_distance)
+    return {"trace_distance": trace_distance, "trace_norm": trace_norm, "helstrom_holevo": helstrom_holevo, "fidelity": fidelity,
+            "bures_distance": bures_distance, "bures_angle": bures_angle, "sub_fidelity": sub_fidelity,
+            "matsumoto_fidelity": matsumoto_fidelity, "hilbert_schmidt": hilbert_schmidt}
+
+
+def _all_values(T, af, bf, full):
+    out = {}
+    for fn in FUNCS:
+        if fn == "matsumoto_fidelity" and not full:
+            continue
+        if fn == "trace_norm":
+            out[fn] = _call(T[fn], af - bf)
+        else:
+            out[fn] = _call(T[fn], af, bf)
+    return out
+
+
+def _finite(x):
+    try:
+        return bool(np.isfinite(x)) and abs(np.imag(x)) == 0
+    except Exception:  # noqa: BLE001
+        return False
+
+
+def work_pair(task, res: Result):
+    warnings.filterwarnings("ignore")
+    drv = worker_driver()
+    T = _toqito()
+    a, b = task["a"], task["b"]
+    kind, n, cplx = task["kind"], a.n, task["cplx"]
+    af, bf = _float_in(a, task["as_complex"]), _float_in(b, task["as_complex"])
+    base = {"kind": kind, "n": n, "cplx": cplx, "as_complex": task["as_complex"], "a": _skey(a), "b": _skey(b)}
+    ea, eb = DM.exact_float(af), DM.exact_float(bf)
+    # ---- certified enclosures
+    tlo, thi, twhy = certify_trace_norm(drv, ea - eb)
+    flo, fwhy, f_float = certify_fid_primal(drv, a, b)
+    lam = min(float(np.linalg.eigvalsh(a.rho.to_complex()).min()), float(np.linalg.eigvalsh(b.rho.to_complex()).min()))
+    full = lam >= 1e-3
+    fhi, fwhy2 = certify_fid_dual(drv, a, b, not full)
+    mlo = mhi = None
+    if full:
+        mlo, mhi, mwhy = certify_matsumoto(drv, a, b, lam)
+        if mlo is None or mhi is None or mhi - mlo > WIDTH_OK:
+            res.count("uncertified/matsumoto:" + ";".join(mwhy)[:50])
+            mlo = mhi = None
+    if tlo is None or thi is None or thi - tlo > WIDTH_OK:
+        res.count("uncertified/trace-norm:" + ";".join(twhy)[:50])
+        tlo = thi = None
+    if flo is None or fhi is None or fhi - flo > WIDTH_OK:
+        res.count("uncertified/fidelity:" + ";".join(str(x) for x in (fwhy, fwhy2) if x)[:50])
+        flo = fhi = None
+    ex = drv.ask("c13_exact", {"n": n, "rho": ea.json(), "sigma": eb.json()})
+    hs, tp, tp4, rad = (fraction(ex[k]) for k in ("hs", "trprod", "trprod4", "subfidrad"))
+    tp_exact = (a.rho @ b.rho).trace()[0]  # rational pair
+    commuting = kind in ("commuting", "orthogonal", "identical")
+    nontriv = (not commuting and tlo is not None and flo is not None and 2e-2 <= tlo and thi <= 2 - 2e-2 and 1e-2 <= flo and fhi <= 1 - 1e-2)
+    # ---- harness self-checks on the certified numbers (cited closed forms); a failure here means harness or cited fact wrong
+    if tlo is not None and flo is not None:
+        res.count("closed-form/fuchs-van-de-graaf-on-certified")
+        if not (1 - fhi <= thi / 2 + 1e-8 and (tlo / 2) ** 2 + flo ** 2 <= 1 + 1e-8):
+            res.violation("certified enclosures contradict Fuchs-van de Graaf (harness or cited fact wrong)", {"function": "self-check", "args": base, "T": [tlo / 2, thi / 2], "F": [flo, fhi]})
+        evs = np.abs(np.linalg.eigvalsh((af - bf + (af - bf).conj().T) / 2))
+        if not (tlo - 1e-8 <= float(evs.sum()) <= thi + 1e-8):
+            res.violation("certified trace norm disagrees with the eigenvalue formula (harness or cited fact wrong)", {"function": "self-check", "args": base, "tn": [tlo, thi], "eig": float(evs.sum())})
+        if not (flo - 1e-8 <= f_float <= fhi + 1e-8):
+            res.violation("certified fidelity disagrees with ||R^H S||_1 (harness or cited fact wrong)", {"function": "self-check", "args": base, "F": [flo, fhi], "svd": f_float})
+        if kind == "identical" and not (thi <= 1e-8 and flo >= 1 - 1e-8):
+            res.violation("identical states: certified T, F not at the extreme values (harness error)", {"function": "self-check", "args": base, "tn": [tlo, thi], "F": [flo, fhi]})
+        if kind == "orthogonal" and not (tlo >= 2 - 1e-8 and fhi <= 1e-8):
+            res.violation("orthogonal states: certified T, F not at the extreme values (harness error)", {"function": "self-check", "args": base, "tn": [tlo, thi], "F": [flo, fhi]})
+        if a.r == 1 or b.r == 1:
+            res.count("closed-form/pure-overlap-on-certified")
+            if not (flo ** 2 - 1e-8 <= float(tp_exact) <= fhi ** 2 + 1e-8):
+                res.violation("pure state: certified F^2 disagrees with the overlap <psi|sigma|psi> (harness or cited fact wrong)", {"function": "self-check", "args": base, "F": [flo, fhi], "overlap": float(tp_exact)})
+    if mlo is not None and fhi is not None and mlo > fhi + 1e-8:
+        res.violation("certified Matsumoto lower bound exceeds the certified fidelity upper bound (contradicts theorem matsumoto_le_fid: harness error)", {"function": "self-check", "args": base, "M": [mlo, mhi], "F": [flo, fhi]})
+    # ---- toqito
+    vals = _all_values(T, af, bf, full)
+    ok = {}
+
+    def viol(fn, what, **info):
+        res.violation(what, dict({"function": fn, "args": base}, **info))
+
+    for fn, (st, v) in vals.items():
+        desc = dict(base, fn=fn)
+        br = f"{fn}/{kind}/{'c' if cplx else 'r'}/{'full' if full else 'singular'}"
+        res.case(desc, nontriv, br)
+        if st == "raise":
+            viol(fn, f"{fn} raises {v} on a valid pair of density operators ({kind}, dim {n}, ranks {a.rank()},{b.rank()})", exception=v)
+            continue
+        if not _finite(v):
+            viol(fn, f"{fn} returns {v!r} on a valid pair of density operators ({kind}, dim {n}, ranks {a.rank()},{b.rank()})", impl=repr(v))
+            continue
+        v = float(np.real(v))
+        good = True
+        if fn in ("trace_distance", "trace_norm", "helstrom_holevo") and tlo is not None:
+            lo, hi = {"trace_distance": (tlo / 2, thi / 2), "trace_norm": (tlo, thi), "helstrom_holevo": (0.5 + tlo / 4, 0.5 + thi / 4)}[fn]
+            if not (lo - TAU_T <= v <= hi + TAU_T):
+                good = False
+                viol(fn, f"{fn} = {v:.10f} outside the certified enclosure [{lo:.10f}, {hi:.10f}] ({kind}, dim {n})", impl=v, certified=[lo, hi], tau=TAU_T, theorem="checkTNLower_sound / checkTNUpper_sound")
+        elif fn == "fidelity" and flo is not None:
+            if not (flo - TAU_F <= v <= fhi + TAU_F):
+                good = False
+                viol(fn, f"fidelity = {v:.10f} outside the certified enclosure [{flo:.10f}, {fhi:.10f}] ({kind}, dim {n}, ranks {a.rank()},{b.rank()})", impl=v, certified=[flo, fhi], tau=TAU_F, theorem="checkFidPrimalCong_sound / checkFidDual_sound")
+            else:
+                res.extra["fid_err"] = max(res.extra.get("fid_err", 0.0), max(flo - v, v - fhi, 0.0))
+        elif fn in ("bures_distance", "bures_angle") and flo is not None:
+            f_lo = max(0.0, flo - TAU_F - 1e-10)
+            f_hi = min(1.0, fhi + TAU_F + 1e-10)
+            if fn == "bures_distance":
+                lo, hi = math.sqrt(2 * (1 - f_hi)) - 1e-9, math.sqrt(2 * (1 - f_lo)) + 1e-9
+            else:
+                lo, hi = math.acos(math.sqrt(f_hi)) - 1e-9, math.acos(math.sqrt(f_lo)) + 1e-9
+            if not (lo <= v <= hi):
+                good = False
+                viol(fn, f"{fn} = {v:.10f} outside [{lo:.10f}, {hi:.10f}], the documented function of the certified fidelity enclosure ({kind}, dim {n})", impl=v, certified=[lo, hi], fidelity=[flo, fhi], theorem="checkFidPrimalCong_sound / checkFidDual_sound")
+        elif fn == "sub_fidelity":
+            scale = max(1.0, float(tp))
+            d = v - float(tp)
+            if not (d >= -1e-9 * scale and abs(d * d - float(rad)) <= 1e-9 * scale):
+                good = False
+                viol(fn, f"sub_fidelity = {v:.10f} violates E = tr(rho sigma) + sqrt(2[(tr rho sigma)^2 - tr(rho sigma rho sigma)]) = {float(tp) + math.sqrt(max(0.0, float(rad))):.10f} ({kind}, dim {n})", impl=v, trprod=float(tp), radicand=float(rad), theorem="trProd_eq / subFidRad_eq")
+        elif fn == "matsumoto_fidelity" and mlo is not None:
+            if not (mlo - TAU_M <= v <= mhi + TAU_M):
+                good = False
+                viol(fn, f"matsumoto_fidelity = {v:.10f} outside the certified enclosure [{mlo:.10f}, {mhi:.10f}] ({kind}, dim {n})", impl=v, certified=[mlo, mhi], tau=TAU_M, theorem="checkMatsPrimal_sound / checkMatsDual_sound")
+        elif fn == "hilbert_schmidt":
+            if abs(v - float(hs)) > 1e-9 * max(1.0, float(hs)):
+                good = False
+                hf = (af - bf + (af - bf).conj().T) / 2
+                lam2 = float(np.max(np.abs(np.linalg.eigvalsh(hf))) ** 2)
+                viol(fn, f"hilbert_schmidt = {v:.10f}, documented tr((rho-sigma)^2) = {float(hs):.10f} ({kind}, dim {n})", impl=v, exact=float(hs), lam_max_sq=lam2, theorem="hsDist_eq / hsDist_eq_sum_sq")
+        if good:
+            ok[fn] = v
+    # ---- relations between toqito's outputs
+    Tt, Ft = ok.get("trace_distance"), ok.get("fidelity")
+
+    def rel(name, cond, **info):
+        res.count("relation/" + name)
+        if not cond:
+            res.violation(f"toqito outputs violate {name} ({kind}, dim {n})", dict({"function": "relation:" + name, "args": base, "outputs": ok}, **info))
+
+    if Tt is not None and Ft is not None:
+        rel("1-F<=T", 1 - Ft <= Tt + SLACK)
+        rel("T^2+F^2<=1", Tt * Tt + Ft * Ft <= 1 + SLACK)
+        if a.r == 1 and b.r == 1:
+            rel("pure-pure: T^2 = 1-F^2", abs(Tt * Tt + Ft * Ft - 1) <= SLACK)
+    if Ft is not None and (a.r == 1 or b.r == 1):
+        rel("pure: F^2 = <psi|sigma|psi>", abs(Ft * Ft - float(tp_exact)) <= SLACK)
+    if "sub_fidelity" in ok and Ft is not None:
+        rel("sub_fidelity<=F^2", ok["sub_fidelity"] <= Ft * Ft + SLACK)
+        if a.r == 1 or b.r == 1:
+            rel("pure: sub_fidelity = F^2", abs(ok["sub_fidelity"] - Ft * Ft) <= SLACK)
+    if "matsumoto_fidelity" in ok and Ft is not None:
+        rel("matsumoto<=F", ok["matsumoto_fidelity"] <= Ft + SLACK)
+    if "helstrom_holevo" in ok and Tt is not None:
+        rel("helstrom = 1/2 + T/2", abs(ok["helstrom_holevo"] - 0.5 - Tt / 2) <= SLACK)
+    if "trace_norm" in ok and Tt is not None:
+        rel("T = trace_norm/2", abs(ok["trace_norm"] / 2 - Tt) <= SLACK)
+    if kind == "identical":
+        for fn, want in (("trace_distance", 0.0), ("fidelity", 1.0), ("bures_distance", 0.0), ("bures_angle", 0.0), ("helstrom_holevo", 0.5), ("matsumoto_fidelity", 1.0)):
+            if fn in ok:
+                tol = 2e-4 if fn.startswith("bures") else SLACK  # sqrt / arccos of 1e-8
+                rel(f"identical: {fn} = {want}", abs(ok[fn] - want) <= tol)
+    if kind == "orthogonal":
+        for fn, want in (("trace_distance", 1.0), ("fidelity", 0.0), ("bures_distance", math.sqrt(2)), ("bures_angle", math.pi / 2), ("helstrom_holevo", 1.0), ("sub_fidelity", 0.0)):
+            if fn in ok:
+                tol = 2e-4 if fn == "bures_angle" else SLACK
+                rel(f"orthogonal: {fn} = {want:.6f}", abs(ok[fn] - want) <= tol)
+    # ---- symmetry and unitary invariance of toqito's outputs
+    def comparable(fn, x, y):
+        if fn == "bures_distance":
+            return abs(x * x - y * y) / 2 <= SLACK
+        if fn == "bures_angle":
+            return abs(math.cos(x) ** 2 - math.cos(y) ** 2) <= SLACK
+        return abs(x - y) <= SLACK * max(1.0, abs(x))
+
+    sw = _all_values(T, bf, af, full)
+    for fn, v in ok.items():
+        st, w = sw.get(fn, ("skip", None))
+        if st == "skip":
+            continue
+        res.count("symmetry/" + fn)
+        if st != "ok" or not _finite(w) or not comparable(fn, v, float(np.real(w))):
+            viol(fn, f"{fn} is not symmetric: f(rho,sigma) = {v!r}, f(sigma,rho) = {w!r} ({kind}, dim {n})", impl=[v, repr(w)], theorem="traceDist_symm / fid_symm")
+    if task.get("Q") is not None:
+        Qm, c = task["Q"], task["c"]
+        ra, rb = rotate(a, Qm, c), rotate(b, Qm, c)
+        raf, rbf = _float_in(ra, True if not Qm.is_real() else task["as_complex"]), _float_in(rb, True if not Qm.is_real() else task["as_complex"])
+        rv = _all_values(T, raf, rbf, full)
+        for fn, v in ok.items():
+            st, w = rv.get(fn, ("skip", None))
+            if st == "skip":
+                continue
+            res.count("unitary-invariance/" + fn)
+            if st != "ok" or not _finite(w) or not comparable(fn, v, float(np.real(w))):
+                viol(fn, f"{fn} is not invariant under a common unitary: {v!r} vs {w!r} ({kind}, dim {n})", impl=[v, repr(w)], unitary={"Q": Qm.key(), "c": c}, theorem="traceDist_unitary_invariant / fid_unitary_invariant")
+
+
+def work_triple(task, res: Result):
+    warnings.filterwarnings("ignore")
+    T = _toqito()
+    sts = task["states"]
+    fs = [_float_in(s, False) for s in sts]
+    base = {"kind": "triple", "n": sts[0].n, "cplx": task["cplx"], "states": [_skey(s) for s in sts]}
+    out = {}
+    for (i, j) in ((0, 1), (1, 2), (0, 2)):
+        st, v = _call(T["trace_distance"], fs[i], fs[j])
+        if st != "ok" or not _finite(v):
+            res.case(dict(base, fn="triangle"), False, "triangle/raise")
+            return  # reported by the pair stream
+        out[(i, j)] = float(v)
+    nontriv = min(out.values()) >= 1e-2
+    res.case(dict(base, fn="triangle"), nontriv, "triangle/" + ("c" if task["cplx"] else "r"))
+    if out[(0, 2)] > out[(0, 1)] + out[(1, 2)] + SLACK:
+        res.violation(f"trace_distance violates the triangle inequality: T(a,c) = {out[(0, 2)]:.8f} > T(a,b) + T(b,c) = {out[(0, 1)] + out[(1, 2)]:.8f}",
+                      {"function": "trace_distance", "args": base, "impl": [out[(0, 1)], out[(1, 2)], out[(0, 2)]], "theorem": "traceDist_triangle"})
+
+
+def work_fos(task, res: Result):
+    """fidelity_of_separability (state version) on rational pure product states"""
+    warnings.filterwarnings("ignore")
+    from toqito.state_metrics import fidelity_of_separability
+    va, vb, dims, k = task["a"], task["b"], task["dims"], task["k"]
+    a = np.array(va[0], dtype=float) + 1j * np.array(va[1], dtype=float)
+    b = np.array(vb[0], dtype=float) + 1j * np.array(vb[1], dtype=float)
+    psi = np.kron(a / np.linalg.norm(a), b / np.linalg.norm(b))
+    rho = np.outer(psi, psi.conj())
+    if not np.any(np.imag(rho)):
+        rho = np.real(rho)
+    desc = {"fn": "fidelity_of_separability", "a": va, "b": vb, "dims": dims, "k": k}
+    st, v = _call(fidelity_of_separability, rho, dims, k=k)
+    res.case(desc, True, f"fidelity_of_separability/{dims[0]}x{dims[1]}/k{k}")
+    if st != "ok":
+        res.violation(f"fidelity_of_separability raises {v} on a pure product state of dims {dims}, level {k}", {"function": "fidelity_of_separability", "args": desc, "exception": v})
+    elif not _finite(v) or abs(float(v) - 1) > 1e-4:
+        res.violation(f"fidelity_of_separability = {v!r} on a pure product state of dims {dims}, level {k} (expected 1)", {"function": "fidelity_of_separability", "args": desc, "impl": repr(v)})
+
+
+# ------------------------------------------------------------------------------------------------
+# serial streams: exact bilinear functions, rectangular trace norm, malformed inputs
+
+
+def stream_hs_inner(ctx):
+    from toqito.state_metrics import hilbert_schmidt_inner_product
+    rng = ctx.rng
+    drv = ctx.lean()
+    for _ in range(40 if ctx.tier == "quick" else 400):
+        n, m = int(rng.integers(1, 6)), int(rng.integers(1, 6))
+        cplx = bool(rng.integers(3))
+        A = rng.integers(-60, 61, size=(n, m)) + (1j * rng.integers(-60, 61, size=(n, m)) if cplx else 0)
+        B = rng.integers(-60, 61, size=(n, m)) + (1j * rng.integers(-60, 61, size=(n, m)) if cplx else 0)
+        r = drv.ask("c13_hs_inner", {"n": n, "m": m, "A": DM.from_int(A).json(), "B": DM.from_int(B).json()})
+        want = complex(frac(r["re"]), frac(r["im"]))
+        Af, Bf = (A.astype(complex), B.astype(complex)) if cplx else (A.astype(float), B.astype(float))
+        st, v = _call(hilbert_schmidt_inner_product, Af, Bf)
+        desc = {"fn": "hilbert_schmidt_inner_product", "A": A, "B": B}
+        ctx.case(desc, n * m > 1 and cplx, "hilbert_schmidt_inner_product/" + ("c" if cplx else "r"))
+        if st != "ok" or complex(v) != want:
+            ctx.violation(f"hilbert_schmidt_inner_product = {v!r}, exact tr(A^H B) = {want!r}", {"function": "hilbert_schmidt_inner_product", "args": desc, "impl": repr(v), "model": repr(want), "theorem": "hsInner_eq"})
+
+
+def stream_rect_trace_norm(ctx):
+    """trace_norm of rectangular / non-Hermitian integer matrices through the Hermitian dilation [[0, A], [A^H, 0]] (its trace norm is 2 ||A||_1)"""
+    from toqito.matrix_props import trace_norm
+    rng = ctx.rng
+    drv = ctx.lean()
+    for _ in range(12 if ctx.tier == "quick" else 120):
+        n, m = int(rng.integers(1, 5)), int(rng.integers(1, 5))
+        cplx = bool(rng.integers(2))
+        A = rng.integers(-8, 9, size=(n, m)) + (1j * rng.integers(-8, 9, size=(n, m)) if cplx else 0)
+        Ad = DM.from_int(A).scale_dy(1, 5)  # A / 32
+        Af = A / 32.0
+        Z1, Z2 = DM.from_int(np.zeros((n, n), dtype=int)), DM.from_int(np.zeros((m, m), dtype=int))
+        H = DM(np.block([[Z1.at(5).re, Ad.re], [Ad.H().re, Z2.at(5).re]]), np.block([[Z1.at(5).im, Ad.im], [Ad.H().im, Z2.at(5).im]]), 5)
+        lo, hi, why = certify_trace_norm(drv, H)
+        desc = {"fn": "trace_norm", "A": A, "scale": "1/32"}
+        if lo is None or hi is None:
+            ctx.count("uncertified/rect-trace-norm")
+            continue
+        st, v = _call(trace_norm, Af)
+        ctx.case(desc, min(n, m) > 1, "trace_norm/rectangular/" + ("c" if cplx else "r"))
+        if st != "ok" or not _finite(v) or not (lo / 2 - TAU_T * max(1.0, hi) <= float(v) <= hi / 2 + TAU_T * max(1.0, hi)):
+            ctx.violation(f"trace_norm = {v!r} outside the certified enclosure [{lo / 2:.10f}, {hi / 2:.10f}] of a {n}x{m} matrix", {"function": "trace_norm", "args": desc, "impl": repr(v), "certified": [lo / 2, hi / 2], "theorem": "checkTNLower_sound / checkTNUpper_sound (Hermitian dilation)"})
+
+
+def stream_malformed(ctx):
+    T = _toqito()
+    rng = ctx.rng
+    fns = ["trace_distance", "helstrom_holevo", "fidelity", "bures_distance", "bures_angle", "sub_fidelity", "matsumoto_fidelity", "hilbert_schmidt"]
+    for _ in range(6 if ctx.tier == "quick" else 40):
+        n = int(rng.integers(2, 5))
+        cplx = bool(rng.integers(2))
+        good = rand_state(rng, n, n, cplx).float()
+        U = rational_unitary(rng, n, cplx).to_float()
+        ev = np.zeros(n)
+        ev[0], ev[1] = 1.25, -0.25
+        bad = {
+            "not-psd": (U * ev) @ U.conj().T,                      # Hermitian, trace 1, eigenvalue -1/4
+            "trace-3/2": good * 1.5,                               # PSD, trace 3/2
+            "not-hermitian": good + np.triu(np.ones((n, n)), 1) * 0.25,   # trace 1, not Hermitian
+        }
+        for why, B in bad.items():
+            for order in (0, 1):
+                args = (B, good) if order == 0 else (good, B)
+                for fn in fns:
+                    st, v = _call(T[fn], *args)
+                    desc = {"fn": fn, "malformed": why, "position": order, "n": n, "cplx": cplx, "bad": B, "good": good}
+                    ctx.case(desc, True, f"reject/{fn}/{why}")
+                    if not (st == "raise" and v.startswith("ValueError")):
+                        ctx.violation(f"{fn} accepts a non-density argument ({why}, position {order}): returned {v!r}", {"function": fn, "args": desc, "impl": repr(v), "theorem": "IsDensity is the domain of the measures"})
+    # fidelity_of_separability: mixed and non-density inputs
+    from toqito.state_metrics import fidelity_of_separability
+    for why, R in (("mixed", np.diag([0.5, 0.5, 0, 0])), ("mixed-full", np.eye(4) / 4), ("not-psd", np.diag([1.25, -0.25, 0, 0])), ("trace-2", np.diag([1.0, 1.0, 0, 0]))):
+        st, v = _call(fidelity_of_separability, R, [2, 2])
+        desc = {"fn": "fidelity_of_separability", "malformed": why, "rho": R}
+        ctx.case(desc, True, f"reject/fidelity_of_separability/{why}")
+        if not (st == "raise" and v.startswith("ValueError")):
+            ctx.violation(f"fidelity_of_separability accepts a {why} input: returned {v!r}", {"function": "fidelity_of_separability", "args": desc, "impl": repr(v)})
+
+
+# ------------------------------------------------------------------------------------------------
+
+
+def _is_hs_spectral(info):
+    return (info.get("function") == "hilbert_schmidt" and "impl" in info and "lam_max_sq" in info and "exact" in info
+            and isinstance(info["impl"], float) and abs(info["impl"] - info["lam_max_sq"]) <= 1e-9 and abs(info["exact"] - info["impl"]) > 1e-9)
+
+
+def corpus_pairs():
+    """past failures / corner cases first"""
+    def st(vecs, w=None):
+        G = QM.from_complex_int(np.array(vecs, dtype=complex).T)
+        return state_from_vectors(G, w or [1] * len(vecs))
+    out = []
+    out.append(("corpus-trace-distance-abs", st([[1, 0]]), st([[1, 1]])))                       # |0><0| vs |+><+|: elementwise abs gave 0.5
+    out.append(("corpus-bell0-bell3", st([[1, 0, 0, 1]]), st([[0, 1, -1, 0]])))                 # hilbert_schmidt: 1 vs 2
+    out.append(("corpus-sqrtm-raise", st([[1, 1, 1, 1]]), st([[1, 1, 1, 1]])))                  # fidelity raised (sqrtm on singular)
+    out.append(("corpus-sqrtm-inaccurate", st([[1, 2, 2]]), st([[1, 2, 2]])))                   # fidelity 1.0000544
+    out.append(("corpus-sqrtm-nan", st([[1, 1, 2, 1]]), st([[1, 1, 2, 1]])))                    # fidelity nan
+    out.append(("corpus-complex", st([[1, 1j]]), st([[1, 1], [1, -1j]], [3, 1])))               # missing conjugate shows
+    out.append(("corpus-subfid-doc", st([[1, 0], [0, 1]], [3, 1]), st([[1, 0], [0, 1]], [1, 7])))  # docstring example of sub_fidelity
+    return out
+
+
+KINDS = ["random", "random", "fullrank", "fullrank", "pure", "pure-mixed", "commuting", "orthogonal", "near", "identical"]
+
+
+def gen_tasks(rng, n_pairs):
+    tasks = []
+    for name, a, b in corpus_pairs():
+        tasks.append({"kind": name, "a": a, "b": b, "cplx": not (a.is_real() and b.is_real()), "as_complex": False, "Q": None})
+    for i in range(n_pairs):
+        kind = KINDS[i % len(KINDS)]
+        n = int(rng.integers(2, 7))
+        cplx = bool(rng.integers(2))
+        a, b = gen_pair(rng, kind, n, cplx)
+        t = {"kind": kind, "a": a, "b": b, "cplx": cplx, "as_complex": bool(rng.integers(4) == 0), "Q": None}
+        if rng.integers(3) == 0:
+            Qm, c, _ = cayley_int(rng, n, cplx)
+            t["Q"], t["c"] = Qm, c
+        tasks.append(t)
+    return tasks
+
+
+FOS_SHAPES = [([2, 2], 1), ([2, 2], 2), ([2, 3], 1), ([3, 2], 1), ([3, 2], 2), ([2, 3], 2)]
+
+
+def gen_fos(rng, count):
+    out = []
+    out.append({"a": [[0, 1, 0], [0, 0, 0]], "b": [[1, 1], [0, 0]], "dims": [3, 2], "k": 1})   # corpus: rejected as entangled (dims not forwarded)
+    for i in range(count):
+        dims, k = FOS_SHAPES[i % len(FOS_SHAPES)]
+        vs = []
+        for d in dims:
+            while True:
+                re, im = rng.integers(-3, 4, size=d), rng.integers(-3, 4, size=d) * int(rng.integers(2))
+                if np.any(re) or np.any(im):
+                    break
+            vs.append([re.tolist(), im.tolist()])
+        out.append({"a": vs[0], "b": vs[1], "dims": dims, "k": k})
+    return out
+
+
+def run(ctx, model_ok=True):
+    rng = ctx.rng
+    quick = ctx.tier == "quick"
+    ctx.matchers["c13-hilbert-schmidt-spectral"] = _is_hs_spectral
+    stream_hs_inner(ctx)
+    stream_rect_trace_norm(ctx)
+    stream_malformed(ctx)
+    tasks = gen_tasks(rng, 150 if quick else 1500)
+    extra = {}
+    run_pool_collect(ctx, work_pair, tasks, extra)
+    triples = []
+    for _ in range(40 if quick else 400):
+        n = int(rng.integers(2, 7))
+        cplx = bool(rng.integers(2))
+        sts = [rand_state(rng, n, int(rng.integers(1, n + 1)), cplx) for _ in range(3)]
+        if rng.integers(4) == 0:
+            sts[1] = mix([sts[0], sts[2]], dyadic_probs(rng, 2))   # b on the segment between a and c: triangle nearly tight
+        triples.append({"states": sts, "cplx": cplx})
+    run_pool(ctx, work_triple, triples)
+    run_pool(ctx, work_fos, gen_fos(rng, 6 if quick else 30))
+    ctx.extra["tolerances"] = {"trace_norm": TAU_T, "fidelity": TAU_F, "matsumoto": TAU_M, "relations": SLACK, "fidelity_of_separability": 1e-4}
+    ctx.extra["max_fidelity_excess_outside_enclosure_within_tolerance"] = extra.get("fid_err", 0.0)
+    ctx.extra["certified_interval_width_bound"] = WIDTH_OK
+
+
+def run_pool_collect(ctx, func, tasks, extra):
+    """run_pool, additionally folding Result.extra['fid_err'] (max) into `extra`"""
+    import multiprocessing as mp
+    import os
+    from ..pool import _run
+    procs = min(16, os.cpu_count() or 4)
+    with mp.get_context("fork").Pool(procs) as pool:
+        for res in pool.imap(_run, [(func, t) for t in tasks], chunksize=1):
+            if "fid_err" in res.extra:
+                extra["fid_err"] = max(extra.get("fid_err", 0.0), res.extra.pop("fid_err"))
+            fold(ctx, res)
+
+
+def replay(ctx, rec):
+    ctx.matchers["c13-hilbert-schmidt-spectral"] = _is_hs_spectral
+    a = rec.get("args", {})
+    res = Result()
+    if "a" in a and "b" in a and isinstance(a["a"], dict):
+        t = {"kind": a.get("kind", "random"), "a": state_from_key(a["a"]), "b": state_from_key(a["b"]), "cplx": a.get("cplx", True), "as_complex": a.get("as_complex", False), "Q": None}
+        u = rec.get("unitary")
+        if u:
+            sh = (t["a"].n, t["a"].n)
+            t["Q"] = QM(np.array([Fraction(x) for x in u["Q"][0]], dtype=object).reshape(sh), np.array([Fraction(x) for x in u["Q"][1]], dtype=object).reshape(sh))
+            t["c"] = Fraction(u["c"])
+        work_pair(t, res)
+    elif "states" in a:
+        work_triple({"states": [state_from_key(k) for k in a["states"]], "cplx": a.get("cplx", True)}, res)
+    elif a.get("fn") == "fidelity_of_separability" and "dims" in a:
+        work_fos({"a": a["a"], "b": a["b"], "dims": a["dims"], "k": a["k"]}, res)
+    else:
+        ctx.note("replay: record of a serial stream (malformed / exact bilinear); re-running the streams")
+        stream_hs_inner(ctx)
+        stream_rect_trace_norm(ctx)
+        stream_malformed(ctx)
+        return
+    res.extra.pop("fid_err", None)
+    fold(ctx, res)
